@@ -108,3 +108,11 @@ package owa
 //@   property C03 C20
 //@   requires weights.Weights != nil
 //@   ensures [is_owa] result != nil && typeis(result.Evaluation, model.EvaluationSingleValue) && result.Alternative == *alternative
+
+// the parsed parameters: every criterion with exactly the weight the request gives it (no sign, no scaling)
+//@ func toArray
+//@   property C03 C20
+//@   ensures [weights_as_requested] result != nil && fresh(result) && fresh(*result) && forall k int :: 0 <= k && k < len(*criteria) && k < len(*result) ==>
+//@             (*result)[k].Criterion == (*criteria)[k] && (*result)[k].Weight == (*weights)[(*criteria)[k].Id]
+//@   loop 1 invariant [ctx] fresh(result)
+//@   loop 1 invariant [so_far] forall k int :: 0 <= k && k < iter && k < len(result) ==> result[k].Criterion == (*criteria)[k] && result[k].Weight == (*weights)[(*criteria)[k].Id]
